@@ -324,7 +324,7 @@ func (g *G) Gen(name string) *Inst {
 		in.Quit = true
 	case "CONFIG":
 		// parameter names outside the server's own parameters, so that the running server is not reconfigured
-		names := []string{"verif-a", "verif-b", "maxmemory-policy", "x y", "verif\x00c"}
+		names := []string{"verif-a", "verif-b", "maxmemory-policy", "x y", "verif\x00c", "Verif-Mixed"}
 		if g.bool("set") {
 			n := g.intn("npairs", 1, 3)
 			args := []string{g.Casing("SET")}
